@@ -7,7 +7,7 @@ import pepper
 
 ID = "C04"
 LEVEL = "proof"
-THEOREMS = ["C04_closure_exact_partial", "C04_eq_rep_least", "C04_wc_rep_least", "C04_wc_rep_none", "C04_same_rep_iff_connected", "C04_wc_rep_is_eq_rep_of_partner", "C04_strand_layout", "C04_template_clause", "C04_seeded_total"]
+THEOREMS = ["C04_closure_exact_partial", "C04_eq_rep_least", "C04_wc_rep_least", "C04_wc_rep_none", "C04_same_rep_iff_connected", "C04_wc_rep_is_eq_rep_of_partner", "C04_strand_layout", "C04_template_clause", "C04_seeded_total", "C04_seeded_graph_denotes", "C04_connected_nodes_declared", "C04_contraction", "C04_denotation_nonvacuous"]
 TRUSTED = ["harness/pepper.py: generator/printer of PIL documents (compiler-emitted and hand-written style), and spec_arrays: the parity union-find oracle over the document's denotation used by the failing-input search",
            "PIL_parser's regular expressions are exercised with free spacing / comments / optional [..], not modelled"]
 ASSUMPTIONS = ["structure-oriented layout only for documents in which every strand occurs in some structure"]
@@ -57,12 +57,21 @@ def evaluate(docs, which=("C04",)):
         for so in (False, True):
             reqs.append(["design", [lines_sexp(d["lines"]), so]])
     mres = fw.run_model(reqs)
+    dres = fw.run_model([["denote", [lines_sexp(d["lines"])]] for d in docs])
     failures = {"C04": [], "C15": []}
-    stats = {"sat": 0, "unsat": 0, "illformed": 0, "compiler": 0, "hand": 0, "nontrivial": set(), "unsat_kinds": {}}
+    stats = {"sat": 0, "unsat": 0, "illformed": 0, "compiler": 0, "hand": 0, "nontrivial": set(), "unsat_kinds": {}, "denotation_hypotheses_hold": 0}
     for i, (d, r) in enumerate(zip(docs, impl)):
         stats[d["source"]] += 1
         if not isinstance(r, dict) or "strand" not in r:
             failures["C04"].append({"kind": "disagreement", "key": "impl-run", "summary": "runner failed: %r" % (r,), "replay": {"text": d["text"]}}); continue
+        fl = dres[i]
+        if isinstance(fl, list) and fl and all(x == "T" for x in fl): stats["denotation_hypotheses_hold"] += 1
+        elif fl != []:
+            names = ("same_graph", "spec_okb", "dgraph_ok")
+            bad = [n for n, x in zip(names, fl)] if not isinstance(fl, list) else [n for n, x in zip(names, fl) if x != "T"]
+            for pid in ("C04", "C15"):
+                failures[pid].append({"kind": "tie", "key": "denote:" + ",".join(bad), "summary": "hypothesis %s of the denotation theorems (seeded graph = declarative graph of the document / loaded specification well formed / node encoding increasing, links between declared nodes) fails for this document (strand layout): %r" % (",".join(bad), fl),
+                                      "replay": {"files": {"doc.pil": d["text"]}, "layout": "strand"}})
         for j, lay in enumerate(("strand", "struct")):
             so = lay == "struct"
             m = model_arrays(mres[2 * i + j])
